@@ -63,7 +63,7 @@ pub fn run(em: &mut Emitter, rng: &mut Rng, thorough: bool) {
     for &n in &[0usize, 1, 2, 126, 127, 128, 129, 200, 255, 256, 257, 1000, 4095, 4096, 4097, 5000, 32768, 65534, 65535, 65536, 70000] {
         for f in length_forms(n) { length_case(em, n, rng.byte(), &f); }
     }
-    for _ in 0..(if thorough { 300 } else { 60 }) {
+    for _ in 0..(if thorough { 1_200 } else { 60 }) {
         let n = match rng.below(4) { 0 => rng.range(0, 300), 1 => rng.range(3000, 5000), 2 => rng.range(60000, 70000), _ => rng.range(0, 70000) } as usize;
         for f in length_forms(n) { length_case(em, n, rng.byte(), &f); }
     }
